@@ -50,6 +50,14 @@ CLAIMS = {
   text="Coq theorem C14 (C14_any_world, C14_for_the_code): for any number of threads, any scripts of provider-level steps (split exactly where a call hands back a destination or copy plan and the glue copies afterwards) and EVERY schedule, each thread's observations equal those of its script running alone - by induction on the schedule, no bound - for the model instantiated with the placement the REGENERATED statics table gives to the log return area, under the hypothesis that every mutable static is thread-local, which is decided by vm_compute on that table (Ctx/StaticsOk.v; C14_refuted_global shows the three-step interference when the area is global, which was the code's state before the repair of finding F7). Correspondence: 2-3 real OS threads under a baton scheduler, all interleavings of short scripts enumerated (sampled above the tier's limit), per-thread observations compared with the model and with solo runs.",
   note="Trusted: Coq kernel; translator T5; hand-written Ctx/Threads.v (sequentially consistent; no weak memory, true data races are not exhibited by a baton scheduler).",
   ref="DESIGN.md §6 C14"),
+ "C04": dict(
+  text="22 Coq theorems about the glue code the REAL trampoline emits today (regenerated on every run into Gen/GlueGen.v from the tool's output on a guest importing the whole API; nothing transcribed), under a hand-written big-step semantics of the 16-instruction Wasm subset it uses, two linear memories and the provider as an oracle constrained only by the low-level convention of the one call each glue makes: for ALL in-bounds arguments, ALL memories and ALL conforming provider responses, read_utf8_str copies exactly [addr,addr+len) of the provider to [out,out+len) of the guest; get_obj_prop allocates, copies exactly the name bytes and passes (scope, block, len) on, returning the provider's value; output_new_utf8_str / intern_utf8_str make one provider call with len, return the HIGH word and copy guest [ptr,ptr+len) to the LOW word's address; log_new_utf8_str loads the five plan words at offsets 0/4/8/12/16 and performs the one or two copies of the retained part; *_effect / *_calls: nothing else in either memory changes and exactly the listed provider calls happen; scalar imports are renamed to the underscore name with the same type (C04_scalar_names / _passthrough on the regenerated tables). The clause `a rejected string write writes nothing` is FALSE of the emitted code and is kept visible: C04_out_str_accepted (status 0), C04_out_str_rejected_writes (witness) - recorded finding F6. Correspondence: generated guests (any subset/order of imports, foreign imports mixed in, each import reached through a wrapper, a table and a re-export) are trampolined by the real tool and executed in wasmtime against a scripted low-level provider; return values, both memories and the provider call log are compared with the extracted interpreter running GlueGen and with the ABI spec.",
+  note="Trusted: Coq kernel; translator T4 (harness_wasm gluegen: wasmparser decode of the trampoline's output); the 16-instruction semantics Tramp/WasmMini.v validated against wasmtime 38 on every run; walrus id stability (every call site reaches the replaced function) is exercised, not proved. Out-of-bounds arguments trap and are outside the quantifier.",
+  ref="DESIGN.md §6 C04"),
+ "C15": dict(
+  text="Coq theorem C15 : abi_consistent = true (with the five clauses pinned separately: C15_names_and_signatures, C15_module_names, C15_emitted_imports_exist, C15_trampoline_guards, C15_code_tables) over tables REGENERATED on every run from the artefacts themselves: the public WAT (parsed with wat+wasmparser), the C header compiled NOW with clang --target=wasm32 (import section of the fresh object, not the checked-in header_test.wasm), the Rust extern block of api/src/lib.rs, what the real TrampolineCodegen::apply accepts, rejects and emits (probed per name and per wrong signature), the provider's decorate_for_target!/#[export_name] items, the module-name constants, and the README / header / core-enum code tables. The domain is finite (19 functions x 5 artefacts, the emitted low-level imports, 4 code tables), so the vm_compute proof is exhaustive; a disagreement is named clause by clause (pins/C15_diag.v) and reported as the failing table row.",
+  note="Trusted: Coq kernel; translator T3 (translators/gen_abi.py + harness_wasm abigen) IS the trusted part, including the Rust->Wasm type mapping (usize/pointers/u32/i32/WriteResult -> i32, Val/DoubleUsize -> i64, f64 -> f64); T1/T2 for the enums.",
+  ref="DESIGN.md §6 C15"),
  "C11": dict(
   text="Coq corollaries of C01 and C06 plus the transcribed accessor logic (Api/ApiLen.v): C11_inline (the inline field of a string/array/object handle of true length n is min(n, MAX_VALUE_LENGTH W), for W in {32,64}; C11_limit_32: the limit is exactly 2^14-1 on the Wasm width), C11_api_len (for every true length below usize::MAX, below, at or above the limit, Value::array_len/obj_len/as_string select the true length), C11_answer_true_length / C11_len_query / C11_no_length (the eager spec's answers carry true lengths, the length query returns them, values without a length answer usize::MAX = -1), C11_reader (= C01: the lazy reader returns exactly those answers for every document, path and history). Correspondence: documents with strings/arrays/maps of 0..40, 255/256, 2^14-3..2^14+2, 65535/65536/70000 elements reached by every access path, read through the api::Value accessors and the raw calls.",
   note="Trusted: as C01/C06. On the 64-bit host the sentinel branch of the accessors is unreachable (limit 2^46-1): it is covered by the theorems at W=32 and, against the real crates, only by the Miri/i686 run of the thorough tier when available.",
